@@ -82,3 +82,16 @@ package keeper
 //@ func (Keeper).GetSpecifiedAssetsPrice
 //@   flag assumed
 //@   ensures err == nil ==> !isnil(r0.Value) && val(r0.Value) > 0
+
+// C13/C12: when a submission finalises a round, the nonces cleared are those of the FEEDER the message reports to
+// (not of any other id), the price is appended under the token of the finalised item, and the feeder is the one marked
+// as updated.
+//@ func (msgServer).CreatePrice
+//@   requires msg != nil
+//@   flag noframe
+//@   flag pure=checkTimestamp,GetAggregatorContext,NewCreatePrice,Logger,GetValidators,IsCheckTx,GasMeter,NewInfiniteGasMeter,WithGasMeter,Wrap,FormatUint,FormatInt,NewEvent,NewAttribute,EventManager
+//@   flag havoc=EmitEvent,AppendPriceTR,GrowRoundID,RemoveNonceWithFeederIDForValidators,RemoveCache,AddCache,AppendUpdatedFeederIDs
+//@   before[C13.cp.nonces] RemoveNonceWithFeederIDForValidators requires arg_feederID == msg.FeederID && arg_validators == res_GetValidators_0
+//@   before[C12.cp.token]  AppendPriceTR requires arg_tokenID == res_NewCreatePrice_0.TokenID
+//@   before[C12.cp.grow]   GrowRoundID requires arg_tokenID == res_NewCreatePrice_0.TokenID
+//@   before[C12.cp.marked] AppendUpdatedFeederIDs requires arg0 == msg.FeederID
